@@ -35,7 +35,7 @@ Begin(t) == /\ pc[t] = "idle" /\ calls[t] # <<>>
             /\ call' = [call EXCEPT ![t] = Head(calls[t])] /\ calls' = [calls EXCEPT ![t] = Tail(calls[t])]
             \* (a line step is an executor call like start: it acquires the VM, executes, polls the requests and releases;
             \*  where it halts by itself is the business of Control.tla, not of this model)
-            /\ pc' = [pc EXCEPT ![t] = IF Head(calls[t]) \in {"start", "line_step"} THEN "s_cas" ELSE IF Head(calls[t]) = "stop" THEN "c_state" ELSE "a_state"]
+            /\ pc' = [pc EXCEPT ![t] = IF Head(calls[t]) \in {"start", "line_step", "leave_scope"} THEN "s_cas" ELSE IF Head(calls[t]) = "stop" THEN "c_state" ELSE "a_state"]
             /\ UNCHANGED <<state, exitReq, atomic, loaded, work, res, ret, grants, runid, afterStop, rets>>
 
 Step(t) ==
@@ -113,6 +113,8 @@ InvNotStuckRunning == (\A t \in Threads : ~InExec(t)) => state # "running"
 \* a granted stop/abort takes effect: once everything is quiet, the scripts of the run it was granted against are gone
 InvStopTakesEffect == (Quiet /\ \E g \in grants : g.run = runid) => ~loaded
 InvAtomicFreeWhenQuiet == Quiet => ~atomic
+\* (a VM reported halted holds the script it halted in: judged on observed outcomes only, StateTellsContentO - this
+\*  two-call model lets a second start reset the exit request between another executor's poll and its result mapping)
 Termination == <>Quiet
 
 \* ---- outcomes: what the embedder can observe once both threads are done
@@ -132,17 +134,21 @@ StopIsPromptO(o, cc) == Granted(o, cc) => o.after <= AfterBound
 \* at most one executor: under a lockstep schedule no call was admitted as executor while the other thread was parked
 \* inside its own executor section (InvOneExecutor of the model, observed)
 OneExecutorO(o) == o.overlap = 0
+\* the state machine: a VM reported halted holds the script it halted in (InvStateTellsContent, observed)
+StateTellsContentO(o) == (o.state = "halted") => o.loaded
 Core(o) == [e |-> o.e, c |-> o.c, state |-> o.state, loaded |-> o.loaded]
 AllObservedAllowed ==
     LET missing == { o \in Observed : Core(o) \notin TLCGet(1) }
         cc == IF CallsC = <<>> THEN <<>> ELSE CallsC
         ineffective == { o \in Observed : ~StopTakesEffectO(o, cc) }
         late == { o \in Observed : ~StopIsPromptO(o, cc) }
-        twoexec == { o \in Observed : ~OneExecutorO(o) } IN
+        twoexec == { o \in Observed : ~OneExecutorO(o) }
+        badstate == { o \in Observed : ~StateTellsContentO(o) } IN
     /\ PrintT(<<"REACHED", Cardinality(TLCGet(1))>>)
     /\ \A o \in missing : PrintT(<<"NOTALLOWED", o>>)        \* mechanism drift (reported as a note)
     /\ \A o \in ineffective : PrintT(<<"NOTEFFECTIVE", o>>)  \* the property oracle
     /\ \A o \in late : PrintT(<<"KEEPSEXECUTING", o>>)       \* the property oracle
     /\ \A o \in twoexec : PrintT(<<"TWOEXECUTORS", o>>)       \* the property oracle
-    /\ ineffective = {} /\ late = {} /\ twoexec = {}
+    /\ \A o \in badstate : PrintT(<<"HALTEDBUTEMPTY", o>>)     \* the property oracle
+    /\ ineffective = {} /\ late = {} /\ twoexec = {} /\ badstate = {}
 =============================================================================
